@@ -159,6 +159,13 @@ func cmdRun(args []string) int {
 	res := explore(p, spec, nworkers(), seed())
 	printResult(res)
 	if len(res.violations) > 0 {
+		if os.Getenv("SYMGO_TRACE") != "" {
+			// re-execute the first violation with the scheduling trace switched on
+			traceSched = true
+			fmt.Fprintln(os.Stderr, "trace of the first violation:")
+			exploreFixed(p, spec, res.violations[0])
+			traceSched = false
+		}
 		return 1
 	}
 	return 0
